@@ -24,6 +24,18 @@ PROPS: Dict[str, Dict[str, Any]] = {
                          "C03_map_container_first", "C03_map_accept", "C03_map_reject", "MapRun.keys_exact",
                          "run_mono"], "stream": "core", "opts": {"salt": "c03", "gen": ["streams", "gen_collection_case"]},
             "quick_n": 6000, "thorough_n": 100000, "fields": ["out", "trace"]},
+    "C04": {"theorems": ["recLoop_of_run", "recLoop_to_run", "RecRun.errs_length", "RecRun.no_errs_iff", "C04_pre_first",
+                         "C04_pre_iff", "C04_unknown_first", "C04_gate_record", "C04_gate_dictAny",
+                         "C04_gate_typeddict", "C04_gate_class_dict", "C04_gate_class_other", "recordStep_inr",
+                         "C04_keyerrs_exact", "C04_all_keys_ok", "C04_accept_no_oc", "C04_objcheck_fails",
+                         "C04_payload_dict", "C04_payload_record", "C04_payload_class", "C04_run", "run_mono"],
+            "stream": "core", "opts": {"salt": "c04", "gen": ["streams", "gen_record_case"]},
+            "quick_n": 6000, "thorough_n": 100000, "fields": ["out", "trace"]},
+    "C02": {"theorems": ["runPreds_spec", "runAPreds_spec", "runAPreds_all_awaited", "contPreds_spec", "runProcs_spec",
+                         "C02_gate_exact", "C02_lookalikes", "C02_accept_iff", "C02_reject", "C02_gate_rej_kinds",
+                         "C02_sync_guard", "C02_equals_accept_iff", "C02_equals_type_err", "C02_none"],
+            "stream": "core", "opts": {"salt": "c02", "gen": ["streams", "gen_scalar_case"]},
+            "quick_n": 8000, "thorough_n": 150000, "fields": ["out", "trace"]},
     "C05": {"theorems": ["C05_union_first", "C05_union_all_errs", "C05_union_valid_inv", "C05_union_invalid_inv",
                          "C05_union_run", "C05_optional_run", "C05_optional_none", "C05_optional_inner_valid",
                          "C05_optional_both_errs", "C05_maybe_nothing", "C05_maybe_just_valid",
